@@ -87,6 +87,30 @@ def offsets(ctx):
                 if t >= I31:
                     tag += "@post2038"
                 V.add(tag, {"zone": zone, "t": t, "in": i, "exp": x, "kind": "off"}, expected=x, actual=o, weight=t)
+    # the offset belongs to the instant, not to what the process converted before: the table
+    # neighbourhoods again in descending and in shuffled order, one process each
+    ns = sorted(near | set(range(0, 10)))
+    ns = [t for t in ns if 0 <= t <= TMAX]
+    orders = {"desc": ns[::-1]}
+    for j in range(3 if not ctx.thorough else 30):
+        sh = ns[:]
+        random.Random(ctx.sub_seed("c14ord", j)).shuffle(sh)
+        orders["shuf%d" % j] = sh
+    for oname, seq in orders.items():
+        sins = [fmt(t) for t in seq]
+        for zone, f in (("TAI", L.tai_utc), ("GPS", L.gps_utc)):
+            try:
+                out, _ = run_lines(ctx.build, "dconv", ["--zone", zone, "-f", "%FT%T"], sins)
+            except BatchError as e:
+                V.add("batch:order:" + zone, {"zone": zone, "kind": "batch"}, detail=str(e), actual=e.result.brief())
+                continue
+            for j, (t, o) in enumerate(zip(seq, out)):
+                x = fmt(t + f(t))
+                sub.evaluations += 1
+                sub.nt((zone, oname, t))
+                if o != x:
+                    V.add("%s:offset:order" % zone, {"zone": zone, "ins": sins[max(0, j - 8):j + 1], "exp": x,
+                                                     "kind": "offseq"}, expected=x, actual=o, weight=t)
     sub.exhaustive = False
     sub.sample({"zone": "TAI", "utc": "2012-07-01T00:00:00", "expected": "2012-07-01T00:00:35"})
     sub.sample({"zone": "TAI", "utc": fmt(I31 + 1), "expected": fmt(I31 + 1 + L.tai_utc(I31 + 1))})
@@ -279,6 +303,9 @@ def replay(ctx, subname, case):
     if k == "off":
         out, _ = run_lines(ctx.build, "dconv", ["--zone", case["zone"], "-f", "%FT%T"], [case["in"]])
         return None if out[0] == case["exp"] else {"in": case["in"], "expected": case["exp"], "actual": out[0]}
+    if k == "offseq":
+        out, _ = run_lines(ctx.build, "dconv", ["--zone", case["zone"], "-f", "%FT%T"], case["ins"])
+        return None if out[-1] == case["exp"] else {"ins": case["ins"], "expected": case["exp"], "actual": out[-1]}
     if k == "diff":
         out, _ = run_lines(ctx.build, "ddiff", [case["a"], "-f", case.get("fmt", "%rS")], [case["b"]])
         return None if out[0] == case["exp"] else {"a": case["a"], "b": case["b"], "expected": case["exp"], "actual": out[0]}
